@@ -260,10 +260,13 @@ pub struct GdsGenOpts {
     pub distinct_fields: bool,
     pub max_structs: usize,
     pub max_elems: usize,
+    /// legal records whose length straddles 32 KB (the sign bit of the length word) or reaches the
+    /// 16-bit limit from below
+    pub large_records: bool,
 }
 impl Default for GdsGenOpts {
     fn default() -> Self {
-        GdsGenOpts { empty_strings: true, oversize: true, distinct_fields: true, max_structs: 5, max_elems: 8 }
+        GdsGenOpts { empty_strings: true, oversize: true, distinct_fields: true, max_structs: 5, max_elems: 8, large_records: true }
     }
 }
 
@@ -331,15 +334,15 @@ pub fn gen_real(src: &mut Src) -> u64 {
         0 => src.pick(FAV).to_bits(),
         1 => {
             let sign = src.below(2);
-            let e = src.i64_in(-256, 251);
+            let e = src.i64_in(-260, 251);
             let frac = src.u64() & ((1u64 << 52) - 1);
             (sign << 63) | (((e + 1023) as u64) << 52) | frac
         }
         _ => {
             // next to a power of sixteen
-            let k = src.i64_in(-63, 62);
+            let k = src.i64_in(-65, 62);
             let base = ((4 * k + 1023) as u64) << 52;
-            let d = src.signed(3);
+            let d = if k == -65 { src.i64_in(0, 3) } else { src.signed(3) };
             (base as i64 + d) as u64
         }
     }
@@ -367,6 +370,12 @@ fn gen_xy(src: &mut Src, o: &GdsGenOpts, big: &mut bool) -> Vec<(i32, i32)> {
         let n = 8190 + src.usize_in(0, 3);
         let p = gen_pt(src);
         return (0..n).map(|i| (p.0.wrapping_add(i as i32), p.1)).collect();
+    }
+    if o.large_records && src.prob(1, 300) {
+        // legal, large: 4095 points make a 32764-byte record, 4096 a 32772-byte one; 8191 is the most that fits
+        let n = *src.pick(&[4094usize, 4095, 4096, 4097, 6000, 8189, 8190, 8191]);
+        let p = gen_pt(src);
+        return (0..n).map(|i| (p.0.wrapping_add(i as i32), p.1.wrapping_sub((i % 7) as i32))).collect();
     }
     let n = src.weighted(&[1, 1, 2, 2, 3, 3, 2, 1, 1, 1, 1, 1, 1]);
     (0..n).map(|_| gen_pt(src)).collect()
@@ -421,6 +430,12 @@ fn gen_big_string(src: &mut Src, o: &GdsGenOpts, big: &mut bool) -> String {
         *big = true;
         // 65530 bytes fit a record, 65531 (padded to 65532) do not
         let n = 65528 + src.usize_in(0, 4);
+        let c = (b'a' + src.below(26) as u8) as char;
+        return std::iter::repeat(c).take(n).collect();
+    }
+    if o.large_records && src.prob(1, 400) {
+        // legal, large: around 32 KB and just below the record limit
+        let n = *src.pick(&[32762usize, 32763, 32764, 32765, 40001, 65529, 65530]);
         let c = (b'a' + src.below(26) as u8) as char;
         return std::iter::repeat(c).take(n).collect();
     }
